@@ -22,7 +22,7 @@ if a.mutants:
     items = [x for x in items if x[0] in want]
 matrix = json.load(open(a.out)) if os.path.exists(a.out) else {}
 RELATED = {"C01": "C01,C02,C03,C05,C09", "C02": "C02,C01,C06", "C03": "C03,C04,C16", "C04": "C04,C03,C12", "C05": "C05,C01,C03", "C06": "C06,C02,C04",
-           "C07": "C07,C08", "C08": "C08,C03", "C09": "C09,C01,C05", "C10": "C10,C11,C12", "C11": "C11,C10,C05", "C12": "C12,C04,C14", "C13": "C13,C12,C16",
+           "C07": "C07,C08", "C08": "C08,C03,C14", "C09": "C09,C01,C05", "C10": "C10,C11,C12", "C11": "C11,C10,C05", "C12": "C12,C04,C14", "C13": "C13,C12,C16",
            "C14": "C14,C15", "C15": "C15,C14", "C16": "C16,C03,C13", "C17": "C17,C03", "C18": "C18,C05", "C19": "C19", "C20": "C20"}
 for name, patch in items:
     m = tempfile.mkdtemp(prefix="mut_")
